@@ -1,6 +1,8 @@
 package main
 
 import (
+	"github.com/cloudflare/pint/internal/output"
+	"strconv"
 	"encoding/hex"
 	"encoding/json"
 	"fmt"
@@ -226,6 +228,77 @@ func c06Readback(lines []string, prs diags.PositionRanges) string {
 // carry no position of their own: the comparison is on the value up to its final line break(s)
 func c06Norm(s string) string { return strings.ReplaceAll(strings.TrimRight(s, "\n"), "\n", " ") }
 
+// c06Carets renders one diagnostic over the position ranges `sub` with the real InjectDiagnostics and compares, line by
+// line, the columns that carry a caret with the columns of `sub` (line-break cells, one past the end of a line, excepted).
+func c06Carets(r *hx.Run, cs c06Case, field string, sub diags.PositionRanges) bool {
+	if len(sub) == 0 {
+		return true
+	}
+	for _, p := range sub {
+		if p.Line != sub[0].Line {
+			return true // ranges over several lines get their carets on the last line only: not judged here
+		}
+	}
+	n := 0
+	for _, p := range sub {
+		n += p.LastColumn - p.FirstColumn + 1
+	}
+	var out string
+	func() {
+		defer func() {
+			if p := recover(); p != nil {
+				out = fmt.Sprintf("PANIC %v", p)
+			}
+		}()
+		out = diags.InjectDiagnostics(cs.Content, []diags.Diagnostic{{Message: "zzmsg", Pos: sub, FirstColumn: 1, LastColumn: n}}, output.None)
+	}()
+	lines := strings.Split(strings.TrimSuffix(cs.Content, "\n"), "\n")
+	want := map[int]map[int]bool{}
+	for _, p := range sub {
+		for c := p.FirstColumn; c <= p.LastColumn; c++ {
+			if p.Line >= 1 && p.Line <= len(lines) && c <= len([]rune(lines[p.Line-1])) {
+				if want[p.Line] == nil {
+					want[p.Line] = map[int]bool{}
+				}
+				want[p.Line][c] = true
+			}
+		}
+	}
+	// rendered form: "<n> | <source line>" followed by a caret row with the same prefix width
+	got := map[int]map[int]bool{}
+	ol := strings.Split(out, "\n")
+	for i := 0; i+1 < len(ol); i++ {
+		bar := strings.Index(ol[i], " | ")
+		if bar <= 0 {
+			continue
+		}
+		ln, err := strconv.Atoi(strings.TrimSpace(ol[i][:bar]))
+		if err != nil || !strings.Contains(ol[i+1], "^") || strings.Contains(ol[i+1], " | ") {
+			continue
+		}
+		pre := bar + 3
+		for j, ch := range []rune(ol[i+1]) {
+			if ch == '^' {
+				if got[ln] == nil {
+					got[ln] = map[int]bool{}
+				}
+				got[ln][j-pre+1] = true
+			}
+		}
+	}
+	// only for ASCII lines: columns are bytes in positions and runes on the console
+	if ln := sub[0].Line; ln >= 1 && ln-1 < len(lines) && len(lines[ln-1]) != len([]rune(lines[ln-1])) {
+		return true
+	}
+	if fmt.Sprint(got) != fmt.Sprint(want) {
+		r.Violate(hx.Violation{Class: "carets-not-under-selected-columns", Known: !cs.InK, Input: cs,
+			Observed: map[string]any{"field": field, "positions": c06ShowPR(sub), "caret_columns_by_line": fmt.Sprint(got), "rendered": out},
+			Expected: "carets under " + fmt.Sprint(want)})
+		return false
+	}
+	return true
+}
+
 func c06Check(r *hx.Run, cs c06Case) {
 	lines := strings.Split(strings.TrimSuffix(cs.Content, "\n"), "\n")
 	entries, pn := pipe.Entries("r.yml", []byte(cs.Content), pipe.Options{Strict: cs.Strict})
@@ -264,6 +337,10 @@ func c06Check(r *hx.Run, cs c06Case) {
 			if nl(c06Readback(lines, sub)) != nl(n.Value[a-1:b]) {
 				r.Violate(hx.Violation{Class: "column-range-off-target", Known: !cs.InK, Input: cs,
 					Observed: map[string]any{"field": name, "first": a, "last": b, "read_back": c06Readback(lines, sub), "want": n.Value[a-1 : b]}, Expected: "columns [first,last] of the value"})
+				return false
+			}
+			// the console rendering of that range: on every line the carets stand under exactly the selected columns
+			if !c06Carets(r, cs, name, sub) {
 				return false
 			}
 			// correspondence of readRange
